@@ -330,7 +330,7 @@ func (a *mqAdapter) Schedule(limit int) []*txpool.TxQueueMeta {
 	}
 	return a.q.ScheduleExtra(limit)
 }
-func (a *mqAdapter) HandleTxUsed(h hash.Hash)       { a.q.HandleTxsUsed([]hash.Hash{h}) }
+func (a *mqAdapter) HandleTxUsed(h hash.Hash)     { a.q.HandleTxsUsed([]hash.Hash{h}) }
 func (a *mqAdapter) All() []*txpool.TxQueueMeta   { return a.q.All() }
 func (a *mqAdapter) Drain() []*txpool.TxQueueMeta { return a.q.Drain() }
 func (a *mqAdapter) Size() int                    { return a.q.Size() }
